@@ -172,6 +172,11 @@ func (t *InitType) Name() string {
 }
 
 func (t *InitType) New(c px.Context, args []px.Value) px.Value {
+	// What is created is an instance of the contained type, just as when new is called on that type
+	return px.AssertInstance(`new`, t.typ, t.create(c, args))
+}
+
+func (t *InitType) create(c px.Context, args []px.Value) px.Value {
 	t.Resolve(c)
 	if t.ctor == nil {
 		panic(px.Error(px.InstanceDoesNotRespond, issue.H{`type`: t, `message`: `new`}))
